@@ -143,7 +143,7 @@ class RRELParent(RRELBase):
         from textx import get_metamodel, textx_isinstance
 
         t = get_metamodel(obj)[self.type]
-        while hasattr(obj, "parent"):
+        while getattr(obj, "parent", None) is not None:
             obj = obj.parent
             if textx_isinstance(obj, t):
                 return obj, lookup_list, matched_path
@@ -195,7 +195,7 @@ class RRELNavigation(RRELBase):
 
         start = [obj]
         # am I a root model node?
-        if not hasattr(obj, "parent") and self.rrel_expression.importURI:
+        if getattr(obj, "parent", None) is None and self.rrel_expression.importURI:
             if hasattr(obj, "_tx_model_repository"):
                 for m in obj._tx_model_repository.local_models:
                     start.append(m)
@@ -308,7 +308,7 @@ class RRELDots(RRELBase):
             The parent or None.
         """
         num = self.num
-        while num > 1 and hasattr(obj, "parent"):
+        while num > 1 and getattr(obj, "parent", None) is not None:
             obj = obj.parent
             num -= 1
         if num <= 1:
